@@ -6,9 +6,9 @@
    DeserializationContext model of IO.v (cursor + region stack; layer B) in CodecB.v.
    src: desert_core/src/serializer/mod.rs, serializer/tuples.rs, deserializer/mod.rs,
         deserializer/tuples.rs, adt/{mod,serializer,deserializer}.rs, evolution.rs, state.rs,
-        features/{uuid,bigdecimal}.rs, desert_macro/src/lib.rs *)
+        features/{uuid,bigdecimal,chrono}.rs, desert_macro/src/lib.rs *)
 From Coq Require Import NArith ZArith List Bool.
-From Desert Require Import Outcome IO Types.
+From Desert Require Import Outcome IO Types Calendar.
 Import ListNotations.
 Open Scope N_scope.
 
@@ -161,6 +161,39 @@ Definition enc_dedup (bs : bytes) (st : strtab) : enc_result :=
 Definition enc_bytes (bs : bytes) (st : strtab) : enc_result :=
   if nlen bs <? 2 ^ 32 then Ok (write_var_u32 (nlen bs) ++ bs, st) else Err ELengthTooLarge.
 
+(* whole seconds since the epoch of a NaiveDateTime value *)
+Definition ndt_secs_of (v : val) : Z :=
+  match v with
+  | VNode 0 [VNode 0 [VZ y; VN m; VN d]; VNode 0 [VN h; VN mi; VN sec; VN _]] =>
+      ndt_secs y m d h mi sec
+  | _ => 0%Z
+  end.
+
+(* --- features/chrono.rs: the byte layouts --- *)
+(* NaiveDate: var_u32(year as u32), month, day *)
+Definition enc_ndate (v : val) : option bytes :=
+  match v with
+  | VNode 0 [VZ y; VN m; VN d] => Some (write_var_u32 (to_unsigned 32 y) ++ [m; d])
+  | _ => None
+  end.
+(* NaiveTime: hour, minute, second, var_u32(nanosecond) *)
+Definition enc_ntime (v : val) : option bytes :=
+  match v with
+  | VNode 0 [VN h; VN mi; VN sec; VN ns] => Some ([h; mi; sec] ++ write_var_u32 ns)
+  | _ => None
+  end.
+Definition enc_ndt (v : val) : option bytes :=
+  match v with
+  | VNode 0 [d; t] =>
+      match enc_ndate d, enc_ntime t with
+      | Some a, Some b => Some (a ++ b)
+      | _, _ => None
+      end
+  | _ => None
+  end.
+Definition of_opt (o : option bytes) (st : strtab) : enc_result :=
+  match o with Some b => Ok (b, st) | None => Err EIllTyped end.
+
 Definition enc_prim (p : prim) (v : val) (st : strtab) : enc_result :=
   match p, v with
   | PU8, VN n => Ok ([n], st)
@@ -184,6 +217,31 @@ Definition enc_prim (p : prim) (v : val) (st : strtab) : enc_result :=
   | PBytes, VB bs => enc_bytes bs st
   | PUuid, VB bs => Ok (bs, st)
   | PBigInt, VZ z => enc_bytes (bigint_to_be z) st
+  (* Weekday / Month: number_from_monday() / number_from_month() as i8 *)
+  | PWeekday, VN n => Ok ([n], st)
+  | PMonth, VN n => Ok ([n], st)
+  (* FixedOffset: type byte 0, var_i32(local_minus_utc) *)
+  | PFixedOffset, VZ z => Ok (0 :: write_var_i32 z, st)
+  (* Tz: type byte 1, the zone name as a plain String *)
+  | PTz, VB nm => '(b, st) <- enc_string nm st ;; Ok (1 :: b, st)
+  (* DateTime<Utc>: i64 seconds, u32 nanoseconds *)
+  | PDateTimeUtc, VNode 0 [VZ secs; VN nanos] =>
+      Ok (be_bytes 8 (to_unsigned 64 secs) ++ be_bytes 4 nanos, st)
+  | PNaiveDate, v => of_opt (enc_ndate v) st
+  | PNaiveTime, v => of_opt (enc_ntime v) st
+  | PNaiveDateTime, v => of_opt (enc_ndt v) st
+  (* DateTime<Local>: its local NaiveDateTime *)
+  | PDateTimeLocal, v => of_opt (enc_ndt v) st
+  (* DateTime<FixedOffset>: local NaiveDateTime, then the offset *)
+  | PDateTimeFixed, VNode 0 [dt; VZ off] =>
+      '(b, st) <- of_opt (enc_ndt dt) st ;; Ok (b ++ 0 :: write_var_i32 off, st)
+  (* DateTime<Tz>: UTC NaiveDateTime, then the zone *)
+  | PDateTimeTz, VNode 0 [dt; VB nm] =>
+      '(b, st) <- of_opt (enc_ndt dt) st ;;
+      '(b2, st) <- enc_string nm st ;;
+      Ok (b ++ 1 :: b2, st)
+  | PVarU32, VN n => Ok (write_var_u32 n, st)
+  | PVarI32, VZ z => Ok (write_var_i32 z, st)
   | _, _ => Err EIllTyped
   end.
 
@@ -495,6 +553,49 @@ Section Dec.
     '(bs, s) <- r_bytes rd len s ;;
     Ok (VB bs, s).
 
+  (* --- features/chrono.rs --- *)
+  Definition dec_small (lo hi : N) : decoder := fun s =>
+    '(z, s) <- read_i8 rd s ;;
+    if ((Z.of_N lo <=? z) && (z <=? Z.of_N hi))%Z then Ok (VN (Z.to_N z), s)
+    else Err EDeserializationFailure.
+
+  Definition dec_offset : decoder := fun s =>
+    '(t, s) <- r_u8 rd s ;;
+    if t =? 0 then
+      '(z, s) <- read_var_i32 rd s ;;
+      if valid_offset z then Ok (VZ z, s) else Err EDeserializationFailure
+    else Err EDeserializationFailure.
+
+  Definition dec_tz : decoder := fun s =>
+    '(t, s) <- r_u8 rd s ;;
+    if t =? 1 then
+      '(v, s) <- dec_string s ;;
+      match v with
+      | VB nm => if tz_known nm then Ok (VB nm, s) else Err EDeserializationFailure
+      | _ => Err EIllTyped
+      end
+    else Err EDeserializationFailure.
+
+  Definition dec_ndate : decoder := fun s =>
+    '(y, s) <- read_var_u32 rd s ;;
+    '(m, s) <- r_u8 rd s ;;
+    '(d, s) <- r_u8 rd s ;;
+    let yz := to_signed 32 y in
+    if valid_ymd yz m d then Ok (VNode 0 [VZ yz; VN m; VN d], s) else Err EDeserializationFailure.
+
+  Definition dec_ntime : decoder := fun s =>
+    '(h, s) <- r_u8 rd s ;;
+    '(mi, s) <- r_u8 rd s ;;
+    '(sec, s) <- r_u8 rd s ;;
+    '(ns, s) <- read_var_u32 rd s ;;
+    if valid_hmsn h mi sec ns then Ok (VNode 0 [VN h; VN mi; VN sec; VN ns], s)
+    else Err EDeserializationFailure.
+
+  Definition dec_ndt : decoder := fun s =>
+    '(d, s) <- dec_ndate s ;;
+    '(t, s) <- dec_ntime s ;;
+    Ok (VNode 0 [d; t], s).
+
   Definition dec_prim (p : prim) : decoder := fun s =>
     match p with
     | PU8 => '(b, s) <- r_u8 rd s ;; Ok (VN b, s)
@@ -528,6 +629,36 @@ Section Dec.
     | PBigInt =>
         '(v, s) <- dec_bytes s ;;
         match v with VB bs => Ok (VZ (bigint_of_be bs), s) | _ => Err EIllTyped end
+    | PWeekday => dec_small 1 7 s
+    | PMonth => dec_small 1 12 s
+    | PFixedOffset => dec_offset s
+    | PTz => dec_tz s
+    | PDateTimeUtc =>
+        '(secs, s) <- read_signed rd 8 64 s ;;
+        '(nanos, s) <- read_be rd 4 s ;;
+        if valid_ts secs nanos then Ok (VNode 0 [VZ secs; VN nanos], s)
+        else Err EDeserializationFailure
+    | PNaiveDate => dec_ndate s
+    | PNaiveTime => dec_ntime s
+    | PNaiveDateTime => dec_ndt s
+    (* Local.from_local_datetime(..).single(): the checks pin TZ=UTC, where every NaiveDateTime is
+       an unambiguous local time *)
+    | PDateTimeLocal => dec_ndt s
+    | PDateTimeFixed =>
+        '(dt, s) <- dec_ndt s ;;
+        '(off, s) <- dec_offset s ;;
+        match off with
+        | VZ z =>
+            if valid_local_with_offset (ndt_secs_of dt) z then Ok (VNode 0 [dt; off], s)
+            else Err EDeserializationFailure
+        | _ => Err EIllTyped
+        end
+    | PDateTimeTz =>
+        '(dt, s) <- dec_ndt s ;;
+        '(tz, s) <- dec_tz s ;;
+        Ok (VNode 0 [dt; tz], s)
+    | PVarU32 => '(n, s) <- read_var_u32 rd s ;; Ok (VN n, s)
+    | PVarI32 => '(z, s) <- read_var_i32 rd s ;; Ok (VZ z, s)
     | _ => Err EIllTyped
     end.
 
